@@ -20,6 +20,9 @@ EXPLANATION = (
     'the same axis; 2D takes the tracecount branch. C06.4: traces and headers are produced by two comprehensions over '
     'the same range(self.tracecount), each applying its index unchanged. C06.5: DelayRecordingTime is regenerated from '
     'the first sample coordinate.')
+EXPLANATION += (
+    ' ADDED: C06.5: DelayRecordingTime is zslices[0] converted by int()/round() without a shift (int(x + 0.5) truncates toward zero and is off by one for negative start times). C06.6: on the export path the only assignment to self.headerbytes and the only element stores into a copy of it are the BinField.Format fallback under `code not in [1, 5]`: the 3600 stored bytes are written back verbatim.'
+)
 ASSUMPTIONS = ['segyio/binfield.py enumerates the SEG-Y binary header fields by 1-based byte position; SEG-Y is big-endian']
 NOT_DECIDED = ('Everything that is segyio\'s behaviour: what it writes for a spec, IBM rounding, the geometry it infers on '
                're-open, irregular sorting, and equality of samples. These are the bulk of the statement.')
